@@ -316,6 +316,29 @@ func TestVF_C11_Model(t *testing.T) {
 		}
 		rec.Eval(ev+del > 0, c, "long")
 	})
+	// large capacities and the default: fill to the brim and one beyond, with lookups of the oldest keys
+	for bi, capacity := range []int{64, 65, 255, 256, 257, 1000, 4096, 4097, 5000, 20000, 0} {
+		if !vfMine(bi) {
+			continue
+		}
+		n := capacity
+		if n <= 0 {
+			n = 64 // the documented default
+		}
+		c := c11Case{Cap: capacity}
+		for i := 0; i < n; i++ {
+			c.Ops = append(c.Ops, c11Op{Kind: "put", Key: fmt.Sprintf("big%d", i)})
+		}
+		c.Ops = append(c.Ops, c11Op{Kind: "get", Key: "big0"}, c11Op{Kind: "get", Key: "big1"}, c11Op{Kind: "put", Key: "one-more"},
+			c11Op{Kind: "get", Key: "big0"}, c11Op{Kind: "get", Key: "big2"}, c11Op{Kind: "get", Key: fmt.Sprintf("big%d", n-1)}, c11Op{Kind: "get", Key: ""})
+		sig, msg, ev, del := c11Run(c)
+		if sig != "" {
+			small := c11Case{Cap: capacity, Ops: c.Ops[len(c.Ops)-7:]}
+			rec.Violation(sig, small, "capacity %d filled with %d keys, then: %s", capacity, n, msg)
+		}
+		rec.EvalHash(true, vfHash("big", capacity), func() interface{} { return map[string]interface{}{"cap": capacity, "keys": n} }, "large-capacity")
+		_, _ = ev, del
+	}
 	// pinned reproducers of listed findings
 	if vfKnown("F5") {
 		sig, _, _, _ := c11Run(c11Case{Cap: 1, Ops: []c11Op{{Kind: "put", Key: "a"}, {Kind: "alias", Key: "b", From: "a"}}})
